@@ -76,9 +76,11 @@ impl Op {
 }
 
 struct Universe {
+    name: &'static str,
     buckets: Vec<String>,
-    /// keys of the first bucket; the other buckets use only the first key (cross-bucket copies stay covered)
+    /// keys of the first bucket; the other buckets use the first `other_keys` of them
     keys: Vec<String>,
+    other_keys: usize,
     contents: Vec<Arc<Vec<u8>>>,
     metas: Vec<Meta>,
     part_contents: Vec<Arc<Vec<u8>>>,
@@ -86,10 +88,34 @@ struct Universe {
     max_parts: i32,
 }
 
+/// The universes searched in a tier, one breadth-first search each (from the empty store).
+fn universes(tier: Tier) -> Vec<Universe> {
+    let m: Meta = Some([("m".to_owned(), "v1".to_owned())].into_iter().collect());
+    match tier {
+        Tier::Quick => vec![universe(tier), Universe {
+            // two buckets with the same two keys in each, two contents, metadata, no multipart: every cross-bucket copy
+            // between every combination of present/absent, plain/metadata-bearing source and destination - also where the
+            // *other* bucket holds an object under the same key
+            name: "two-buckets",
+            buckets: vec!["bkt-one".into(), "bkt-two".into()],
+            keys: vec!["k1 +%é~".into(), "d/k2".into()],
+            other_keys: 2,
+            contents: vec![Arc::new(b"abcde".to_vec())],
+            metas: vec![None, m.clone()],
+            part_contents: vec![],
+            max_uploads_ever: 0,
+            max_parts: 0,
+        }],
+        Tier::Thorough => vec![universe(tier)],
+    }
+}
+
 fn universe(tier: Tier) -> Universe {
     let m: Meta = Some([("m".to_owned(), "v1".to_owned())].into_iter().collect());
     match tier {
         Tier::Quick => Universe {
+            name: "one-bucket",
+            other_keys: 1,
             buckets: vec!["bkt-one".into()],
             // (the first key carries the characters a key may legally contain and a file name has to survive: blank, +, %, non-ASCII, ~)
             keys: vec!["k1 +%é~".into(), "d/k2".into()],
@@ -101,6 +127,8 @@ fn universe(tier: Tier) -> Universe {
             max_parts: 1,
         },
         Tier::Thorough => Universe {
+            name: "thorough",
+            other_keys: 1,
             buckets: vec!["bkt-one".into(), "bkt-two".into()],
             keys: vec!["k1 +%é~".into(), "d/k2".into(), "d/k3".into()],
             contents: vec![Arc::new(vec![]), Arc::new(b"x".to_vec()), Arc::new((0..4097u32).map(|i| (i % 251) as u8).collect()), Arc::new((0..12289u32).map(|i| (i % 241) as u8).collect())],
@@ -114,7 +142,7 @@ fn universe(tier: Tier) -> Universe {
 
 impl Universe {
     fn keys_of(&self, bucket: &str) -> &[String] {
-        if bucket == self.buckets[0] { &self.keys } else { &self.keys[..1] }
+        if bucket == self.buckets[0] { &self.keys } else { &self.keys[..self.other_keys] }
     }
 }
 
@@ -638,7 +666,7 @@ fn uuid_like(s: &str) -> bool {
 
 pub fn run(ctx: &Ctx) -> (Acc, Report) {
     let mut acc = ctx.acc();
-    let u = universe(ctx.tier);
+    let us = universes(ctx.tier);
     let scratch = Scratch::new("c18");
     let wall_cap = std::time::Duration::from_secs(ctx.tier.pick(45, 600));
     let max_depth = ctx.tier.pick(usize::MAX, usize::MAX);
@@ -646,6 +674,17 @@ pub fn run(ctx: &Ctx) -> (Acc, Report) {
     // replay of one history (a witness): the operation labels are re-executed from the empty store
     if let Some(r) = &ctx.replay {
         let labels: Vec<&str> = r.strip_prefix("history=").unwrap_or(r).split(" ; ").filter(|l| !l.is_empty()).collect();
+        // the universe the history belongs to: the first one whose operation alphabet contains every label
+        let u = us.iter().find(|u| {
+            let mut m = Model::default();
+            let mut sink = std::collections::BTreeSet::new();
+            // labels of all operations of this universe in any multipart phase
+            for o in ops_for(u, &m) {
+                sink.insert(o.label());
+            }
+            m.uploads_created = 0;
+            labels.iter().all(|l| sink.contains(*l) || l.starts_with("UploadPart") || l.starts_with("Complete") || l.starts_with("Abort"))
+        }).unwrap_or(&us[0]);
         let dir = scratch.path.join("replay");
         std::fs::create_dir_all(&dir).expect("dir");
         let fs = FileSystem::new(&dir).expect("fs");
@@ -653,13 +692,13 @@ pub fn run(ctx: &Ctx) -> (Acc, Report) {
         let mut path: Vec<String> = Vec::new();
         let mut bads: Vec<(String, Bad)> = Vec::new();
         for l in labels {
-            let Some(op) = ops_for(&u, &model).into_iter().find(|o| o.label() == l) else { machinery_failure(&format!("replay: operation {l} is not enabled in the replayed state")) };
+            let Some(op) = ops_for(u, &model).into_iter().find(|o| o.label() == l) else { machinery_failure(&format!("replay: operation {l} is not enabled in the replayed state")) };
             path.push(op.label());
             for b in apply(&fs, &mut model, &op) {
                 bads.push((op.label(), b));
             }
             let mut rb = Vec::new();
-            acc.evals += 1 + read_set(&fs, &model, &u, &mut rb);
+            acc.evals += 1 + read_set(&fs, &model, u, &mut rb);
             for b in rb {
                 bads.push(("<read set>".into(), b));
             }
@@ -671,17 +710,22 @@ pub fn run(ctx: &Ctx) -> (Acc, Report) {
         return (acc, Report { level: "model_checking", rule: "replay of one history".into(), exhaustive: false, extra: json!({"states": 1, "transitions": path.len().max(1), "traces_validated_against_impl": path.len()}), assumptions: vec![] });
     }
 
-    let mut seen: HashSet<u64> = HashSet::new();
-    let mut frontier: VecDeque<State> = VecDeque::new();
-    let init = State { model: Model::default(), disk: Snapshot::new(), depth: 0, path: None };
-    seen.insert(canon(&init.model, &init.disk));
-    frontier.push_back(init);
     let mut states: u64 = 0;
     let mut transitions: u64 = 0;
     let mut reads: u64 = 0;
     let mut max_depth_seen = 0;
     let mut capped = false;
     let mut dir_no = 0u64;
+    let mut frontier_left = 0usize;
+    let mut per_universe: Vec<serde_json::Value> = Vec::new();
+    for (ui, u) in us.iter().enumerate() {
+    let states_before = states;
+    let transitions_before = transitions;
+    let mut seen: HashSet<u64> = HashSet::new();
+    let mut frontier: VecDeque<State> = VecDeque::new();
+    let init = State { model: Model::default(), disk: Snapshot::new(), depth: 0, path: None };
+    seen.insert(canon(&init.model, &init.disk));
+    frontier.push_back(init);
 
     // BFS level by level; each level's states are expanded in parallel, results merged in order
     while !frontier.is_empty() {
@@ -696,7 +740,6 @@ pub fn run(ctx: &Ctx) -> (Acc, Report) {
         dir_no += level.len() as u64;
         let results: Vec<(Vec<(State, u64)>, Vec<(String, Bad, Vec<String>)>, u64, u64)> = {
             let scratch_path = scratch.path.clone();
-            let u = &u;
             let level_ref = &level;
             let w = workers().min(level.len().max(1));
             std::thread::scope(|s| {
@@ -785,16 +828,20 @@ pub fn run(ctx: &Ctx) -> (Acc, Report) {
         }
     }
     for h in &seen {
-        acc.nontrivial(*h);
+        acc.nontrivial(*h ^ (ui as u64).wrapping_mul(0x9E37_79B9_7F4A_7C15));
     }
+    frontier_left += frontier.len();
+    per_universe.push(json!({"universe": u.name, "buckets": u.buckets, "keys": u.keys, "keys_in_the_other_buckets": u.other_keys, "content_sizes": u.contents.iter().map(|c| c.len()).collect::<Vec<_>>(), "metadata_values": u.metas.len(), "multipart_uploads_per_history": u.max_uploads_ever, "states": states - states_before, "transitions": transitions - transitions_before, "fixpoint_reached": frontier.is_empty()}));
+    }
+    let u = &us[0];
     acc.outcome(if capped { "search capped by wall clock" } else { "frontier emptied (fixpoint)" });
     let rep = Report {
         level: "model_checking",
-        rule: format!("explicit-state BFS over (reference model, disk snapshot) with the real s3s_fs::FileSystem as transition function; universe: buckets {:?}, keys {:?}, contents of {:?} bytes, metadata {{none, m}}, identities {{alice, bob}}, at most {} multipart upload per history with parts <= {}; transitions: create/delete bucket, put, delete, delete-objects, copy, create/abort/complete multipart, upload-part, upload-part-copy; in every reached state the full read set: GetObject for every key x 10-13 Range forms (none, 0-0, 0-, 1-2, last byte, first = length, last beyond end, suffix 1, suffix 0, suffix > length, 4 KiB buffer edges), HeadObject, ListObjects and ListObjectsV2 x 5 prefixes x 4 start-after values, ListBuckets, ListParts. Distinct states by canonical hash (model + disk with upload UUIDs renamed, mtimes dropped).", u.buckets, u.keys, u.contents.iter().map(|c| c.len()).collect::<Vec<_>>(), u.max_uploads_ever, u.max_parts),
+        rule: format!("explicit-state BFS over (reference model, disk snapshot) with the real s3s_fs::FileSystem as transition function, one search per universe (all listed under coverage.universes; quick: a one-bucket universe with multipart, and a two-bucket universe with the same two keys in both buckets, one content, with and without metadata, for every cross-bucket copy); first universe: buckets {:?}, keys {:?}, contents of {:?} bytes, metadata {{none, m}}, identities {{alice, bob}}, at most {} multipart upload per history with parts <= {}; transitions: create/delete bucket, put, delete, delete-objects, copy, create/abort/complete multipart, upload-part, upload-part-copy; in every reached state the full read set: GetObject for every key x 10-13 Range forms (none, 0-0, 0-, 1-2, last byte, first = length, last beyond end, suffix 1, suffix 0, suffix > length, 4 KiB buffer edges), HeadObject, ListObjects and ListObjectsV2 x 5 prefixes x 4 start-after values, ListBuckets, ListParts. Distinct states by canonical hash (model + disk with upload UUIDs renamed, mtimes dropped).", u.buckets, u.keys, u.contents.iter().map(|c| c.len()).collect::<Vec<_>>(), u.max_uploads_ever, u.max_parts),
         exhaustive: !capped,
         extra: json!({
             "states": states.max(1), "transitions": transitions.max(1), "traces_validated_against_impl": transitions,
-            "read_evaluations": reads, "max_depth": max_depth_seen, "fixpoint_reached": !capped, "frontier_left": frontier.len(),
+            "read_evaluations": reads, "max_depth": max_depth_seen, "fixpoint_reached": !capped, "frontier_left": frontier_left, "universes": per_universe,
             "explanation": "every transition is executed on the implementation itself (the implementation is the transition function), so every model trace is validated against it by construction"
         }),
         assumptions: vec![
